@@ -160,7 +160,7 @@ def c15_obligations():
 # =============================================================================================================
 import z3  # noqa: E402
 from pyvc import symgraph as SG  # noqa: E402
-from pyvc.interp import Interp, Engine, explore, RaiseEx, Undecided, ReturnEx, Frame  # noqa: E402
+from pyvc.interp import Interp, Engine, explore, RaiseEx, Undecided, ReturnEx, BreakEx, ContinueEx, Frame  # noqa: E402
 from pyvc.values import Obj  # noqa: E402
 from pyvc.contract import Contract  # noqa: E402
 from . import compile_stab as CS  # noqa: E402
@@ -234,6 +234,12 @@ class DirectStepTask:
                 I.exec_block(body)
             except ReturnEx as rx:
                 returned = ("ret", rx.value)
+            except ContinueEx:
+                pass  # `continue` ends the step like falling through: the continue-path postconditions below apply
+            except BreakEx:
+                eng.record(f"{self.label}:post.step-never-leaves-the-walk-by-break", "refuted", 0,
+                           "the step leaves the while loop before the output node: the rest of the wire is not compared", None)
+                return
             except RaiseEx as e:
                 eng.record(f"{self.label}:no-raise", "refuted", 0, f"raises {e.exc_name}: {e.msg}", None)
                 return
